@@ -18,7 +18,7 @@ BC = ["and", "affineGeq", "affineLeq", "alldifferent", "countEq", "elementIv", "
 
 
 # proof files whose authors have reported completion (in-progress files are not imported)
-FINISHED = ["Affine", "AffineLeq", "Dummy", "Element", "MinMax", "Counting", "CountEq", "Lex", "Scc", "NoSubCycle", "AlldifferentReg", "GccReg", "ExactOfSupport", "SupportCertProofs", "AlldiffCorrectFinal"]
+FINISHED = ["Affine", "AffineLeq", "Dummy", "Element", "MinMax", "Counting", "CountEq", "Lex", "Scc", "NoSubCycle", "AlldifferentReg", "GccReg", "ExactOfSupport", "SupportCertProofs", "AlldiffCorrectFinal", "GccPortSound", "GccExact"]
 
 
 def available():
@@ -59,6 +59,24 @@ def gen():
         body.append("end Nucs\n")
         return "\n".join(body)
 
+    c05_extra_port = ""
+    if "gcc_port_sound" in names:
+        c05_extra_port = '''
+/-- soundness of the RAW ported gcc (nucs/propagators/gcc_propagator.py line by line), for EVERY number of values, when every
+    upper capacity is at least 1: a failing call had no solution; a non-failing call returns a non-empty sub-box that keeps every
+    solution (11 kLoC: NucsProofs/Propagators/GccSound*.lean, GccExist*.lean).  `C05_gcc` above is about the registered model
+    (the port behind a result checker, which rejects when there are more than 12 values). -/
+theorem C05_gcc_port (ps : List Int) (B : Box) (hc : Contract .gcc ps B) (hB : B.Nonempty)
+    (hu : ∀ j, j < (ps.length - 1) / 2 → 1 ≤ getI ps (1 + (ps.length - 1) / 2 + j))
+    (st : Status) (B' : Box) (h : gcc ps B = .ok (st, B')) :
+    (st ≠ .inc → Box.le B' B ∧ B'.Nonempty ∧ ∀ t, inBox t B → rel .gcc ps t → inBox t B') ∧
+    (st = .inc → ∀ t, inBox t B → ¬ rel .gcc ps t) := gcc_port_sound ps B hc hB hu st B' h
+/-- … and it fails exactly when there is no solution (completeness of the failure detection) -/
+theorem C05_gcc_port_feasible (ps : List Int) (B : Box) (hc : Contract .gcc ps B) (hB : B.Nonempty)
+    (hu : ∀ j, j < (ps.length - 1) / 2 → 1 ≤ getI ps (1 + (ps.length - 1) / 2 + j))
+    (st : Status) (B' : Box) (h : gcc ps B = .ok (st, B')) (hst : st ≠ .inc) :
+    ∃ t, inBox t B ∧ rel .gcc ps t := gcc_port_feasible ps B hc hB hu st B' h hst
+'''
     out["C05"] = block("sound", ("C05", "Sound"), ALGS,
         "  C05 — filtering never removes a value that takes part in a solution.\n\n"
         "  `Sound a` (Spec.lean): for every parameter vector and box within the documented contract, a\n"
@@ -69,7 +87,7 @@ def gen():
         "example : Contract .affineLeq [1, 1, -1, 0] [(2, 5), (2, 5), (0, 10)] ∧\n"
         "    Box.Nonempty [(2, 5), (2, 5), (0, 10)] ∧\n"
         "    runAlg .affineLeq [1, 1, -1, 0] [(2, 5), (2, 5), (0, 10)] = .ok (.cons, [(2, 5), (2, 5), (4, 10)]) := by\n"
-        "  refine ⟨by simp [Contract], by simp [Box.Nonempty], by rfl⟩\n")
+        "  refine ⟨by simp [Contract], by simp [Box.Nonempty], by rfl⟩\n" + c05_extra_port)
     c06_extra = '''
 /-- on an instantiated box the call fails iff the tuple violates the relation -/
 theorem C06_point_iff (a : Alg) (hs : Sound a) (hg : GroundOk a) (hw : ∀ ps t, relW a ps t → rel a ps t)
@@ -132,6 +150,22 @@ theorem C14_alldifferent_is_port (ps : List Int) (B : Box) (hne : B ≠ []) (hdo
 /-- a non-failing answer of the port satisfies Hall's condition and is pruned with respect to every Hall interval -/
 theorem C14_alldifferent_hall (ps : List Int) (B : Box) (hne : B ≠ []) (hdom : ∀ d ∈ B, d.1 ≤ d.2)
     (B' : Box) (h : alldifferent ps B = .ok (.cons, B')) : HallOK B' ∧ HallPruned B' := port_hall_pruned ps B hne hdom B' h
+'''
+    if "gcc_port_exact_partial" in names:
+        c14_extra += '''
+/-- gcc, raw port, PARTIAL: exactness (every bound of the answer has a support, a second call changes nothing) is proved
+    from ONE explicit hypothesis that is tested, not proved: both bounds of every variable of the answer have a support in the
+    LOWER-capacity relaxation of the input box (`LbcSupported`; the completeness half of the two lower-capacity passes).  Proved
+    unconditionally: the upper-capacity supports, the combination of a lower and an upper support into a gcc support (Quimper et
+    al.'s alternating-path step), and that a supported answer is a fixpoint of the port (`gcc_port_fixpoint_of_supported`). -/
+theorem C14_gcc_port_exact_partial (ps : List Int) (B : Box) (hc : Contract .gcc ps B) (hB : B.Nonempty)
+    (hu : ∀ j, j < (ps.length - 1) / 2 → 1 ≤ getI ps (1 + (ps.length - 1) / 2 + j))
+    (st : Status) (B' : Box) (h : gcc ps B = .ok (st, B')) (hst : st ≠ .inc)
+    (hlbc : ∀ k, k < B'.length → LbcSupported ps B k (getDom B' k).1 ∧ LbcSupported ps B k (getDom B' k).2) :
+    (∀ k, k < B'.length →
+      (∃ t, inBox t B' ∧ rel .gcc ps t ∧ getI t k = (getDom B' k).1) ∧
+      (∃ t, inBox t B' ∧ rel .gcc ps t ∧ getI t k = (getDom B' k).2)) ∧
+    (∃ st', gcc ps B' = .ok (st', B') ∧ st' ≠ .inc) := gcc_port_exact_partial ps B hc hB hu st B' h hst hlbc
 '''
     out["C14"] = block("exact", ("C14", "Exact"), BC,
         "  C14 — bound-consistent propagators compute exactly the bounds hull of the solutions.\n\n"
